@@ -6,6 +6,7 @@ From DBG Require Interop.DispatchBBHash Interop.DispatchGraph.
 From DBG Require Interop.DispatchAscii.
 From DBG Require Interop.DispatchScan.
 From DBG Require Interop.DispatchFilter.
+From DBG Require Interop.DispatchPipeline.
 Import ListNotations.
 Open Scope N_scope.
 
@@ -134,7 +135,8 @@ Definition dispatchers : list (string -> val -> option val) :=
     DispatchBBHash.d_bbhash;
     (fun op v => if DispatchScan.is_scan_op op then DispatchScan.d_scan op v else None);
     (fun op v => if existsb (String.eqb op) ["s.filter"; "s.filter_get"; "f.filter"; "chk.filter_rc"]%string
-                 then DispatchFilter.d_filter op v else None)
+                 then DispatchFilter.d_filter op v else None);
+    DispatchPipeline.d_pipeline
   ].
 Fixpoint first_some (ds : list (string -> val -> option val)) (op : string) (v : val) : option val :=
   match ds with
